@@ -25,6 +25,7 @@ LEVEL_NOTE = ("Trusted: Lean kernel; axioms propext/Classical.choice/Quot.sound;
 TECHNIQUE = "Lean 4 proof (injective framing + canonical sorting) + byte-exact SHA-256 key correspondence + pair oracle on the real hasher"
 OBLIGATIONS = [
     "Grog.C09.key_eq_iff",
+    "Grog.C09.key_eq_state_or_collision",
     "Grog.C09.key_order_independent",
     "Grog.C09.enc_injective",
     "Grog.C09.encFiles_injective",
@@ -46,6 +47,7 @@ FRAG = ["a", "b", "c", "ab", "bc", "abc", ",", "=", "_", "::", "/", " ", "x", "e
 PATHS = ["a", "b", "ab", "c", "a,b", "bc", "a.txt", "d/e", "d/f", "a=b", "z"]
 CONTENTS = ["", "a", "b", "ab", "c", "bc", "abc", "x,y", "hello\n", "\x00", "\x01", "\x00\x00\x00\x00\x00\x00\x00\x01a"]
 DEPS = ["", "d1", "d2", "d1d2", "0123456789abcdef0123456789abcdef", "d1,d2"]
+DEPLABELS = ["//d:a", "//d:b", "//d:ab", "//e:a", "//d=x:a", "//:a"]
 OUTS = [("file", "o"), ("file", "o2"), ("dir", "o"), ("dir", "d/"), ("docker", "img:tag"), ("file", "o,file::o2"), ("file", "a"), ("file", "b")]
 FPK = ["k", "k2", "a", "a=b", "v", "platform", "label", "command", "inputs", "os", "arch", "K", "Version", "version", "VERSION", "A"]
 FPV = ["", "v", "b=c", "c", "1", "linux/amd64", "darwin/arm64", "l/a"]
@@ -68,7 +70,7 @@ def gen_state(rng):
         "pkg": rng.choice(["", "p", "p/q"]), "name": rng.choice(["t", "t2", "a", "ab"]),
         "command": "".join(rng.choice(FRAG) for _ in range(rng.randint(0, 4))),
         "inputs": paths, "files": files,
-        "outputs": [list(o) for o in outs], "deps": [rng.choice(DEPS) for _ in range(rng.randint(0, 3))],
+        "outputs": [list(o) for o in outs], "deps": {l: rng.choice(DEPS) for l in rng.sample(DEPLABELS, rng.randint(0, 3))},
         "fingerprint": fp, "platform": rng.choice(PLATS + [None]),
         "bin": rng.choice(["", "", "", "binout"]),
     }
@@ -78,7 +80,7 @@ def canon_state(s):
     """state equality from the property text"""
     ins = frozenset((p, s["files"].get(p)) for p in s["inputs"])
     outs = tuple(sorted(tuple(o) for o in s["outputs"])) + ((("file", s["bin"]),) if s.get("bin") else ())
-    return (s["pkg"], s["name"], s["command"], ins, tuple(sorted(outs)), tuple(sorted(s["deps"])),
+    return (s["pkg"], s["name"], s["command"], ins, tuple(sorted(outs)), tuple(sorted(s["deps"].items())),
             tuple(sorted(s["fingerprint"].items())), s["platform"])
 
 
@@ -89,11 +91,12 @@ def to_req(s, algo, rootname="ws", rng=None):
         rng.shuffle(fp); rng.shuffle(files)
     return {"op": "hash.key", "variant": __import__("os").environ.get("VERIF_C09_VARIANT", "new"), "algo": algo, "rootname": rootname, "pkg": s["pkg"], "name": s["name"], "command": s["command"],
             "inputs": list(s["inputs"]), "files": [[p, c] for p, c in files], "outputs": [list(o) for o in s["outputs"]],
-            "deps": list(s["deps"]), "fingerprint": [[k, v] for k, v in fp], "platform": s["platform"], "bin": s.get("bin", "")}
+            "deps": [[k, v] for k, v in (sorted(s["deps"].items(), reverse=True) if rng is not None and rng.random() < 0.5 else s["deps"].items())],
+            "fingerprint": [[k, v] for k, v in fp], "platform": s["platform"], "bin": s.get("bin", "")}
 
 
 def base_state():
-    return {"pkg": "p", "name": "t", "command": "cmd", "inputs": [], "files": {}, "outputs": [], "deps": [], "fingerprint": {},
+    return {"pkg": "p", "name": "t", "command": "cmd", "inputs": [], "files": {}, "outputs": [], "deps": {}, "fingerprint": {},
             "platform": "linux/amd64", "bin": ""}
 
 
@@ -109,17 +112,17 @@ def targeted_pairs():
     # separators inside list elements
     out.append(("sep:inputs", st(inputs=["a,b"], files={"a,b": "x"}), st(inputs=["a", "b"], files={"a": "x", "b": ""})))
     out.append(("sep:inputs-nofile", st(inputs=["a,b"]), st(inputs=["a", "b"])))
-    out.append(("sep:deps", st(deps=["d1,d2"]), st(deps=["d1", "d2"])))
+    out.append(("sep:deps", st(deps={"//d:a": "d1,d2"}), st(deps={"//d:a": "d1", "//d:b": "d2"})))
     out.append(("sep:outputs", st(outputs=[["file", "o,file::o2"]]), st(outputs=[["file", "o"], ["file", "o2"]])))
     out.append(("shift:inputs|outputs", st(inputs=["a"], outputs=[]), st(inputs=[], outputs=[["", "a"]])))
-    out.append(("shift:outputs|deps", st(outputs=[["file", "o"]], deps=["x"]), st(outputs=[["file", "ox"]], deps=[""])))
-    out.append(("empty-list-vs-empty-element", st(deps=[]), st(deps=[""])))
-    out.append(("empty-list-vs-empty-element", st(deps=[""]), st(deps=["", ""])))
+    out.append(("shift:outputs|deps", st(outputs=[["file", "o"]], deps={"//d:a": "x"}), st(outputs=[["file", "ox"]], deps={"//d:a": ""})))
+    out.append(("empty-list-vs-empty-element", st(deps={}), st(deps={"//d:a": ""})))
+    out.append(("empty-list-vs-empty-element", st(deps={"//d:a": ""}), st(deps={"//d:a": "", "//d:b": ""})))
     # fingerprint key/value boundary
     out.append(("shift:fingerprint-key|value", st(fingerprint={"a": "b=c"}), st(fingerprint={"a=b": "c"})))
     out.append(("sep:fingerprint", st(fingerprint={"a": "1,b=2"}), st(fingerprint={"a": "1", "b": "2"})))
-    out.append(("shift:deps|fingerprint", st(deps=["x"], fingerprint={}), st(deps=["xk=v"], fingerprint={})))
-    out.append(("shift:deps|fingerprint", st(deps=["x"], fingerprint={"k": "v"}), st(deps=["xk=v"], fingerprint={})))
+    out.append(("shift:deps|fingerprint", st(deps={"//d:a": "x"}, fingerprint={}), st(deps={"//d:a": "xk=v"}, fingerprint={})))
+    out.append(("shift:deps|fingerprint", st(deps={"//d:a": "x"}, fingerprint={"k": "v"}), st(deps={"//d:a": "xk=v"}, fingerprint={})))
     out.append(("shift:fingerprint|platform", st(fingerprint={"k": "v"}, platform="l/a"), st(fingerprint={"k": "vl"}, platform="/a")))
     out.append(("platform-vs-none", st(platform="l/a", fingerprint={"k": "v"}), st(platform=None, fingerprint={"k": "vl/a"})))
     out.append(("multiplatform-ignores-platform", st(platform=None), st(platform=None)))
@@ -128,12 +131,16 @@ def targeted_pairs():
     out.append(("fingerprint-named-platform", st(fingerprint={"platform": "l/a"}, platform="l/a"), st(fingerprint={}, platform="l/a")))
     out.append(("fingerprint-named-platform", st(fingerprint={"platform": "l/a"}, platform=None), st(fingerprint={}, platform="l/a")))
     out.append(("fingerprint-named-command", st(fingerprint={"command": "cmd"}), st(fingerprint={"command": "other"})))
+    # dependency identity: the same digests assigned to different dependencies are different states
+    out.append(("swap:dep-hashes-between-labels", st(deps={"//a:gen": "h1", "//b:gen": "h2"}), st(deps={"//a:gen": "h2", "//b:gen": "h1"})))
+    out.append(("swap:dep-hashes-between-labels", st(deps={"//a:gen": "h1"}), st(deps={"//b:gen": "h1"})))
+    out.append(("shift:dep-label|hash", st(deps={"//a:g": "enh1"}), st(deps={"//a:gen": "h1"})))
     # all elements of one list moved into the adjacent (empty) list
-    out.append(("move-list:outputs->deps", st(outputs=[["file", "o"]], deps=[]), st(outputs=[], deps=["file::o"])))
+    out.append(("move-list:outputs->deps", st(outputs=[["file", "o"]], deps={}), st(outputs=[], deps={"file::o": ""})))
     out.append(("move-list:inputs->outputs", st(inputs=["file::o"], outputs=[]), st(inputs=[], outputs=[["file", "o"]])))
-    out.append(("move-list:inputs->deps", st(inputs=["x"], deps=[]), st(inputs=[], deps=["x"])))
-    out.append(("move-list:outputs->deps", st(outputs=[["file", "o"], ["file", "o2"]], deps=[]), st(outputs=[], deps=["file::o", "file::o2"])))
-    out.append(("move-list:deps->fingerprint", st(deps=["k", "v"], fingerprint={}), st(deps=[], fingerprint={"k": "v"})))
+    out.append(("move-list:inputs->deps", st(inputs=["x"], deps={}), st(inputs=[], deps={"x": ""})))
+    out.append(("move-list:outputs->deps", st(outputs=[["file", "o"], ["file", "o2"]], deps={}), st(outputs=[], deps={"file::o": "", "file::o2": ""})))
+    out.append(("move-list:deps->fingerprint", st(deps={"k": "v"}, fingerprint={}), st(deps={}, fingerprint={"k": "v"})))
     out.append(("case-variant-keys", st(fingerprint={"version": "1", "VERSION": "2"}), st(fingerprint={"version": "2", "VERSION": "1"})))
     out.append(("case-variant-keys", st(fingerprint={"k": "1", "K": "2", "a": "3", "A": "4"}), st(fingerprint={"k": "2", "K": "1", "a": "3", "A": "4"})))
     # long components: a difference beyond typical buffer sizes must still change the key
@@ -142,13 +149,13 @@ def targeted_pairs():
         out.append(("long:content", st(inputs=["a"], files={"a": "x" * L + "a"}), st(inputs=["a"], files={"a": "x" * L + "b"})))
         out.append(("long:content-shift", st(inputs=["a", "b"], files={"a": "x" * L + "a", "b": "b"}), st(inputs=["a", "b"], files={"a": "x" * L, "b": "ab"})))
     for L in [1023, 1025, 4097]:
-        out.append(("long:dep", st(deps=["d" * L + "a"]), st(deps=["d" * L + "b"])))
+        out.append(("long:dep", st(deps={"//d:a": "d" * L + "a"}), st(deps={"//d:a": "d" * L + "b"})))
         out.append(("long:fingerprint", st(fingerprint={"k": "v" * L + "a"}), st(fingerprint={"k": "v" * L + "b"})))
         out.append(("long:input-path", st(inputs=["d/" + "p" * 200 + "a"]), st(inputs=["d/" + "p" * 200 + "b"])))
         out.append(("long:output", st(outputs=[["file", "o" * L + "a"]]), st(outputs=[["file", "o" * L + "b"]])))
     for n in [127, 128, 129, 255, 256, 257, 300]:
         out.append(("many:inputs", st(inputs=["i%04d" % i for i in range(n)]), st(inputs=["i%04d" % i for i in range(n - 1)] + ["j"])))
-        out.append(("many:deps", st(deps=["d%04d" % i for i in range(n)]), st(deps=["d%04d" % i for i in range(n - 1)] + ["e"])))
+        out.append(("many:deps", st(deps={"//d:t%04d" % i: "h" for i in range(n)}), st(deps=dict([("//d:t%04d" % i, "h") for i in range(n - 1)] + [("//d:e", "h")]))))
     # file boundaries
     out.append(("shift:file|file", st(inputs=["a", "b"], files={"a": "ab", "b": "c"}), st(inputs=["a", "b"], files={"a": "a", "b": "bc"})))
     out.append(("shift:file|file", st(inputs=["a", "b"], files={"a": "x", "b": ""}), st(inputs=["a", "b"], files={"a": "", "b": "x"})))
@@ -159,8 +166,8 @@ def targeted_pairs():
     # duplicates / order (must be equal)
     out.append(("dup-input", st(inputs=["a", "a"], files={"a": "x"}), st(inputs=["a"], files={"a": "x"})))
     out.append(("dup-input", st(inputs=["a", "b", "a"], files={"a": "x", "b": "y"}), st(inputs=["b", "a"], files={"a": "x", "b": "y"})))
-    out.append(("perm", st(inputs=["b", "a"], files={"a": "x", "b": "y"}, outputs=[["file", "o2"], ["file", "o"]], deps=["d2", "d1"], fingerprint={"k2": "1", "k": "2"}),
-                st(inputs=["a", "b"], files={"a": "x", "b": "y"}, outputs=[["file", "o"], ["file", "o2"]], deps=["d1", "d2"], fingerprint={"k": "2", "k2": "1"})))
+    out.append(("perm", st(inputs=["b", "a"], files={"a": "x", "b": "y"}, outputs=[["file", "o2"], ["file", "o"]], deps={"//d:b": "d2", "//d:a": "d1"}, fingerprint={"k2": "1", "k": "2"}),
+                st(inputs=["a", "b"], files={"a": "x", "b": "y"}, outputs=[["file", "o"], ["file", "o2"]], deps={"//d:a": "d1", "//d:b": "d2"}, fingerprint={"k": "2", "k2": "1"})))
     out.append(("bin-is-output", st(bin="binout"), st(outputs=[["file", "binout"]])))
     return out
 
@@ -180,7 +187,9 @@ def mutate(rng, s):
     elif kind == "output":
         t["outputs"] = [list(o) for o in rng.sample(OUTS, rng.randint(0, 3))]
     elif kind == "dep":
-        t["deps"] = [rng.choice(DEPS) for _ in range(rng.randint(0, 3))]
+        t["deps"] = {l: rng.choice(DEPS) for l in rng.sample(DEPLABELS, rng.randint(0, 3))}
+        if rng.random() < 0.3 and len(s["deps"]) >= 2:      # same digests, permuted over the same labels
+            ks = list(s["deps"]); vs = [s["deps"][k] for k in ks]; rng.shuffle(vs); t["deps"] = dict(zip(ks, vs))
     elif kind == "fp":
         t["fingerprint"][rng.choice(FPK)] = rng.choice(FPV)
     elif kind == "platform":
@@ -201,7 +210,7 @@ def mutate(rng, s):
         if ca and cb is not None:
             t["files"][a] = ca[:-1]; t["files"][b] = ca[-1] + cb
     elif kind == "perm":
-        rng.shuffle(t["inputs"]); rng.shuffle(t["outputs"]); rng.shuffle(t["deps"])
+        rng.shuffle(t["inputs"]); rng.shuffle(t["outputs"]); t["deps"] = dict(sorted(t["deps"].items(), reverse=True))
         t["fingerprint"] = dict(sorted(t["fingerprint"].items(), reverse=True))
     elif kind == "dupinput" and t["inputs"]:
         t["inputs"].append(rng.choice(t["inputs"]))
@@ -540,6 +549,36 @@ def cli_section(ctx):
                               {"kind": "oracle", "oracle": "CLI keys independent of location, format, order, workers", "variant": tag, "algo": algo,
                                "packages": pkgs, "files": files, "reference": {"rc": ref[0], "keys": ref[1]}, "variant_result": {"rc": got[0], "keys": got[1]},
                                "log": log2[-800:]}, signature="cli-key-depends-on:" + fmt + ("-shuffled" if shuffle else ""))
+    # --- dependency identity: two dependencies with the same package-relative output swap contents -----------
+    import json as _json, shutil as _sh
+    for algo in ("xxh3", "sha256"):
+        base = ctx.scratch("swap_" + algo)
+        ws = os.path.join(base, "ws")
+        for pk in ("a", "b", "c"):
+            os.makedirs(os.path.join(ws, pk), exist_ok=True)
+        open(os.path.join(ws, "grog.toml"), "w").write("")
+        gen = {"targets": [{"name": "gen", "command": "cat in.txt > out.txt", "inputs": ["in.txt"], "outputs": ["out.txt"]}]}
+        for pk in ("a", "b"):
+            open(os.path.join(ws, pk, "BUILD.json"), "w").write(_json.dumps(gen))
+        open(os.path.join(ws, "c", "BUILD.json"), "w").write(_json.dumps({"targets": [{"name": "use", "command": "cat ../a/out.txt ../b/out.txt > res.txt",
+                                                                             "dependencies": ["//a:gen", "//b:gen"], "outputs": ["res.txt"]}]}))
+        open(os.path.join(ws, "a", "in.txt"), "w").write("X\n"); open(os.path.join(ws, "b", "in.txt"), "w").write("Y\n")
+        r1, _ = _keys_after_build(grog, ws, os.path.join(base, "root"), algo)
+        open(os.path.join(ws, "a", "in.txt"), "w").write("Y\n"); open(os.path.join(ws, "b", "in.txt"), "w").write("X\n")
+        r2, log2 = _keys_after_build(grog, ws, os.path.join(base, "root"), algo)
+        runs += 2
+        if r1 is None or r2 is None or r1[0] != 0 or r2[0] != 0:
+            ctx.notes.append("swap-deps scenario unusable: %s %s" % (r1, r2))
+            continue
+        got = open(os.path.join(ws, "c", "res.txt")).read()
+        new_keys = len(set(r2[1]) - set(r1[1]))
+        compared += 1
+        if got != "Y\nX\n" or new_keys != 3:
+            ctx.violation("two dependencies with the same package-relative output path swapped their contents; the dependant's state changed "
+                          "(its dependency outputs differ) but it kept its cache key and was served the stale result",
+                          {"kind": "oracle", "oracle": "CLI: dependant of two dependencies that swap outputs gets a new key and fresh bytes", "algo": algo,
+                           "res_txt": got, "expected": "Y\nX\n", "new_cache_keys_in_second_build": new_keys, "expected_new_keys": 3, "log": log2[-600:]},
+                          signature="collision:dependency-outputs-swapped-between-dependencies")
     ctx.coverage["cli_builds"] = runs
     ctx.coverage["cli_variants_compared"] = compared
     ctx.coverage["evaluations"] += runs
